@@ -29,4 +29,8 @@ SCENARIOS = [
     sc("VerifC16_AnyDeclaration", "C16 every kind against every declaration", "12 kinds incl. nil and typed nil pointer x 8 declarations",
        ["a declared item type is never changed by a store"]),
     sc("VerifC16_ValueCopy", "C16 *Value copy", "8 declarations", ["a *Value is copied verbatim"]),
+    dict(name="C16.c instance isolation", entry="VerifC16c_Isolation", harness="root", K=60, reach=["built"],
+         overrides={"github.com/olive-io/bpmn/v2/pkg/tracing.NewTracer": "verifNewTracer"},
+         expect_obligations=["a variable written by one instance is not visible to another instance"],
+         bounds="two option sets from one WithVariables option value; one writes (64-bit symbolic value), the other reads"),
 ]
